@@ -50,7 +50,14 @@ def gen_batch(rng, ncand=40):
     for nm, fl in (("P2", [("uint8", 1, "a"), ("uint8", 1, "b")]), ("P4", [("uint16", 1, "a"), ("uint16", 1, "b")]), ("P8", [("uint32", 1, "a"), ("uint32", 1, "b")])):
         ctx.structs[nm] = {"size": sum(gen.PSIZE[t] for t, _, _ in fl), "align": gen.PSIZE[fl[0][0]], "objs": 0, "fields": fl, "file": 0}
         decls.append(("struct", nm, fl))
+    # structs with a nested struct in the middle (the bytes Java ENcodes for them follow the declared layout)
+    for nm, fl, sz in (("N1", [("uint32", 1, "id"), ("P4", 1, "hdr"), ("uint32", 1, "len")], 12), ("N2", [("uint64", 1, "a"), ("P8", 1, "mid"), ("uint64", 1, "b")], 24)):
+        ctx.structs[nm] = {"size": sz, "align": gen.PSIZE[fl[0][0]], "objs": 0, "fields": fl, "file": 0}
+        decls.append(("struct", nm, fl))
     cands = [
+        [("out", "N2", None, "p0"), ("in", "uint32", None, "p1")],
+        [("out", "N1", None, "p0"), ("out", "uint32", None, "p1"), ("in", "uint8", None, "p2")],
+        [("out", "N2", None, "p0"), ("out", "N1", None, "p1")],
         [("in", "P4", None, "p0"), ("in", "uint32", None, "p1")],
         [("in", "uint32", None, "p0"), ("in", "P4", None, "p1")],
         [("out", "P4", None, "p0"), ("out", "uint32", None, "p1"), ("in", "uint8", None, "p2")],
@@ -275,6 +282,14 @@ def run(ctx_):
                 bad, _ = compare(r1, expected(c, methods, 0))
                 if bad:
                     failed = "%s line of %s differs: expected %s, got %s" % (bad[0][2], bad[0][0], bad[0][3][:200], bad[0][4][:200])
+                    # the nested-struct class is a NullPointerException when a nested member is DEcoded; what the
+                    # proxy or the skeleton ENcodes (the bytes the transport sees) works on the unchanged tree and
+                    # is held to the wire model like everything else
+                    ps_bad = dict(methods)[bad[0][0]]
+                    pure = all(sh_ is None and t_ != "A0" for d_, t_, sh_, pn_ in ps_bad)      # no parameter of another known class beside it
+                    if code == 3 and pure and bad[0][2] == "xport" and "Exception" not in bad[0][4]:
+                        res["failures"].append({"property": prop, "idl": idl, "what": "Java bytes of a struct with a nested struct differ from the C-family layout: " + failed})
+                        failed = None
             if failed:
                 khist[cls][1] += 1
                 res["failures"].append({"property": prop, "known_class": cls, "idl": idl, "what": failed})
